@@ -563,7 +563,12 @@ std::string vh::execute(toks_t& t, std::string& aug)
     nano::verif::pool_hook().store(&hook);
     g_ctx.store(c, std::memory_order_release);
     bind_thread(c, 0);
-    g_deadline_ms.store(now_ms() + (tmo != nullptr ? std::atoll(tmo) : 20000));
+#ifdef __SANITIZE_THREAD__
+    constexpr long long default_timeout_ms = 60000;
+#else
+    constexpr long long default_timeout_ms = 20000;
+#endif
+    g_deadline_ms.store(now_ms() + (tmo != nullptr ? std::atoll(tmo) : default_timeout_ms));
 
     {
         auto pool = std::make_unique<pool_t>(static_cast<size_t>(asked));
